@@ -90,6 +90,14 @@ func cavWith(field string, variant int) Cav {
 			return Cav{Max: i64(7)}
 		}
 		return Cav{Max: i64(11)}
+	case "hdr":
+		switch variant {
+		case 0:
+			return Cav{Hdr: map[string]string{"x-a": "1", "x-b": "2"}}
+		case 1:
+			return Cav{Hdr: map[string]string{"x-a": "1"}}
+		}
+		return Cav{Hdr: map[string]string{"x-a": "1", "x-c": "9"}} // adds a key the delegation did not write
 	case "tags":
 		switch variant {
 		case 0:
@@ -118,34 +126,40 @@ func init() {
 		}
 		for depth := 1; depth <= 4; depth++ {
 			for level := 1; level <= depth; level++ {
-				for _, field := range []string{"link", "tag", "max", "tags"} {
+				for _, field := range []string{"link", "tag", "max", "tags", "hdr"} {
 					for claim := 0; claim < 3; claim++ { // 0 omits, 1 matches, 2 contradicts
 						for mid := 0; mid < 3; mid++ { // intermediate re-statement: 0 none, 1 tighter/equal, 2 looser (escalation)
 							if mid != 0 && level == depth {
 								continue
 							}
-							cast := newCast(o.seed*7919 + int64(id))
-							service := cast.Ed("service")
-							with := cast.Ed("p0").DID.String()
-							var claimNb Cav
-							if claim == 1 {
-								claimNb = cavWith(field, 1)
-							} else if claim == 2 {
-								claimNb = cavWith(field, 2)
-							}
-							specs := linearChain(cast, service, "store/add", with, depth, far, claimNb)
-							specs[level-1].Caps[0].Nb = cavWith(field, 0)
-							if mid != 0 {
-								// the delegation just below the restricting one states the field itself
-								v := 1
-								if mid == 2 {
-									v = 2
+							for pat := 0; pat < 3; pat++ { // ability of the restricting delegation: exact, ns/*, *
+								if pat != 0 && mid != 0 {
+									continue
 								}
-								specs[level].Caps[0].Nb = cavWith(field, v)
+								cast := newCast(o.seed*7919 + int64(id))
+								service := cast.Ed("service")
+								with := cast.Ed("p0").DID.String()
+								var claimNb Cav
+								if claim == 1 {
+									claimNb = cavWith(field, 1)
+								} else if claim == 2 {
+									claimNb = cavWith(field, 2)
+								}
+								specs := linearChain(cast, service, "store/add", with, depth, far, claimNb)
+								specs[level-1].Caps[0].Nb = cavWith(field, 0)
+								specs[level-1].Caps[0].Can = []string{"store/add", "store/*", "*"}[pat]
+								if mid != 0 {
+									// the delegation just below the restricting one states the field itself
+									v := 1
+									if mid == 2 {
+										v = 2
+									}
+									specs[level].Caps[0].Nb = cavWith(field, v)
+								}
+								w := &World{Kind: "caveat-chain", Cast: cast, Can: "store/add", Inv: "inv", Specs: specs, Ctx: baseCtx(service)}
+								add(w, fmt.Sprintf("depth=%d level=%d field=%s claim=%s mid=%s can=%s", depth, level, field,
+									[]string{"omits", "matches", "contradicts"}[claim], []string{"none", "tighter", "looser"}[mid], []string{"exact", "ns/*", "*"}[pat]))
 							}
-							w := &World{Kind: "caveat-chain", Cast: cast, Can: "store/add", Inv: "inv", Specs: specs, Ctx: baseCtx(service)}
-							add(w, fmt.Sprintf("depth=%d level=%d field=%s claim=%s mid=%s", depth, level, field,
-								[]string{"omits", "matches", "contradicts"}[claim], []string{"none", "tighter", "looser"}[mid]))
 						}
 					}
 				}
@@ -471,7 +485,23 @@ func init() {
 			worlds = append(worlds, w)
 			id++
 		}
-		return finishWorlds(o, "C05", worlds, labels, st, 16, nil)
+		// the same worlds through a real server: WithRevocationChecker -> context -> Provide -> validator
+		var bcases []string
+		for _, w := range worlds {
+			if w.ID%2 == 1 && o.tier != "thorough" {
+				continue
+			}
+			if err := w.Build(); err != nil {
+				return err
+			}
+			b := &Batch{ID: w.ID, W: w, Invs: []string{w.Inv}, Handlers: map[string]string{w.Can: "ok"}}
+			bobs := b.Run(nil)
+			bcases = append(bcases, b.Coq(bobs))
+		}
+		if err := writeBatchCases(o.out, "cases_C05srv", bcases, 8); err != nil {
+			return err
+		}
+		return finishWorlds(o, "C05", worlds, labels, st, 16, map[string]any{"worlds_also_run_through_server": len(bcases)})
 	}
 }
 
@@ -521,6 +551,14 @@ func init() {
 		for b := 0; b < nbase; b++ {
 			k := chainKnobs{MaxDepth: 4, Defects: []int{0, 0, 0, 0, 1}, Decoys: 3, RSA: false, Resolver: true, Caveats: true}
 			base, info := chainWorld(r, id, o.seed, k)
+			if b%5 == 4 {
+				// a chain through a non-key issuer: valid session attestation among 1..3 useless ones
+				// (for another token, expired), in every order the permutations produce
+				so := sessOpts{Attested: "this", AttIssuer: pick(r, []string{"authority", "delegate"}), Resource: "authority", Window: "valid",
+					Pos: 1 + r.Intn(2), Resolver: "absent", Decoys: 1 + r.Intn(3)}
+				base, _ = sessionWorld(o.seed, id, so)
+				info = chainInfo{Depth: so.Pos, Decoys: so.Decoys}
+			}
 			var verdicts []bool
 			var ids []int
 			for p := 0; p <= nperm; p++ {
@@ -730,43 +768,51 @@ func init() {
 		var cases []string
 		id := 0
 		retries := 0
-		for len(todo) > 0 {
-			// wait for the first part of a second, then work until 0.85 s into it
-			for time.Now().Nanosecond() > 150_000_000 {
-				time.Sleep(5 * time.Millisecond)
+		// every case is run twice: in the first and in the second half of a wall-clock second
+		// (a clock that rounds instead of truncating only shows in the second half)
+		for half := 0; half < 2; half++ {
+			lo, hi := 20_000_000, 450_000_000
+			if half == 1 {
+				lo, hi = 550_000_000, 950_000_000
 			}
-			t := int(ucan.Now())
-			var later []timedCase
-			for i, tc := range todo {
-				if time.Now().Nanosecond() > 850_000_000 || int(ucan.Now()) != t {
-					later = append(later, todo[i:]...)
-					break
+			pending := append([]timedCase{}, todo...)
+			for len(pending) > 0 {
+				for ns := time.Now().Nanosecond(); ns < lo || ns > hi-100_000_000; ns = time.Now().Nanosecond() {
+					time.Sleep(3 * time.Millisecond)
 				}
-				w, label := timedWorld(o.seed, id, tc, t)
-				if err := w.Build(); err != nil {
-					return err
+				t := int(time.Now().Unix())
+				var later []timedCase
+				for i, tc := range pending {
+					if ns := time.Now().Nanosecond(); ns > hi || ns < lo || int(time.Now().Unix()) != t {
+						later = append(later, pending[i:]...)
+						break
+					}
+					w, label := timedWorld(o.seed, id, tc, t)
+					if err := w.Build(); err != nil {
+						return err
+					}
+					obs := w.Run()
+					if obs.NowBefore != t || obs.NowAfter != t {
+						retries++
+						later = append(later, tc)
+						continue
+					}
+					w.ID = id
+					labels[id] = label + []string{" (first half of the second)", " (second half of the second)"}[half]
+					st.Worlds++
+					st.Kinds[tc.pos]++
+					if obs.Authorized {
+						st.Authorized++
+					}
+					st.Signatures[fmt.Sprintf("%s|%d|%d|%v|%d", tc.pos, tc.exp, tc.nbf, obs.Authorized, half)]++
+					if len(st.Samples) < 6 {
+						st.Samples = append(st.Samples, map[string]any{"world": id, "label": labels[id], "now": t, "authorized": obs.Authorized})
+					}
+					cases = append(cases, w.Coq(obs))
+					id++
 				}
-				obs := w.Run()
-				if obs.NowBefore != t || obs.NowAfter != t {
-					retries++
-					later = append(later, tc)
-					continue
-				}
-				w.ID = id
-				labels[id] = label
-				st.Worlds++
-				st.Kinds[tc.pos]++
-				if obs.Authorized {
-					st.Authorized++
-				}
-				st.Signatures[fmt.Sprintf("%s|%d|%d|%v", tc.pos, tc.exp, tc.nbf, obs.Authorized)]++
-				if len(st.Samples) < 6 {
-					st.Samples = append(st.Samples, map[string]any{"world": id, "label": label, "now": t, "authorized": obs.Authorized})
-				}
-				cases = append(cases, w.Coq(obs))
-				id++
+				pending = later
 			}
-			todo = later
 		}
 		if err := writeWorldCases(o.out, "cases_C03", cases, 16, "check_worlds"); err != nil {
 			return err
